@@ -1032,7 +1032,13 @@ def run_stream(ctx, model, cases, stream, tol=common.TOL, on_result=None, rerun=
             # switch to a stacked or vectorised path), some cells missing in some of the fields only: compared with the model like any other case
             ctx._long_done.add(c.cmd)
             for n_ in (70, 150):
-                ins = [c.inputs[j % len(c.inputs)] for j in range(n_)]
+                base = list(c.inputs)
+                if c.cmd == "Multiply" and all(a.dtype.kind in "iub" for a in base):
+                    # a product of 70 whole numbers leaves the 64-bit range (wrap-around is outside the exact-integer model): the same values as decimals
+                    seen_ = {}
+                    base = [seen_.setdefault(id(a), numpy.ma.array(numpy.ma.getdata(a).astype(float), mask=numpy.ma.getmaskarray(a).copy())) for a in base]
+                    ctx.count("long_list_twins_whole_numbers_as_decimals")
+                ins = [base[j % len(base)] for j in range(n_)]
                 params = dict(c.params)
                 if "Weights" in params and len(params["Weights"]) == len(c.inputs):
                     params["Weights"] = [params["Weights"][j % len(c.inputs)] for j in range(n_)]
